@@ -35,8 +35,8 @@ pub fn strategy(tier: Tier) -> BoxedStrategy<Case> {
     let timer = prop_oneof![
         4 => (0u16..50, any::<bool>(), us()).prop_map(|(ms, derived, us)| Op::SendAfter { to: T, ms, derived, us }),
         4 => (1u16..50, any::<bool>(), us()).prop_map(|(ms, derived, us)| Op::SendInterval { to: T, ms, derived, us }),
-        1 => (0u16..50, us()).prop_map(|(ms, us)| Op::ExitAfter { to: T, ms, us }),
-        1 => (0u16..50, us()).prop_map(|(ms, us)| Op::KillAfter { to: T, ms, us }),
+        1 => (0u16..50, us(), prop::bool::weighted(0.3)).prop_map(|(ms, us, derived)| Op::ExitAfter { to: T, ms, us, derived }),
+        1 => (0u16..50, us(), prop::bool::weighted(0.3)).prop_map(|(ms, us, derived)| Op::KillAfter { to: T, ms, us, derived }),
     ];
     let timer_client = proptest::collection::vec((0u16..20, timer), 1..=3).prop_map(|v| {
         let mut out = vec![];
